@@ -886,7 +886,7 @@ func (w *World) Run(goal Term, vars []*Var, max int) Result {
 		}
 		vals := make([]Term, len(vars))
 		for i, v := range vars {
-			vals[i] = Resolve(v)
+			vals[i] = NormErr(Resolve(v))
 		}
 		r.Answers = append(r.Answers, vals)
 		r.Canon = append(r.Canon, CanonAnswer(vals))
